@@ -17,7 +17,7 @@ HASHERS = {"HasherV2", "HasherHybrid", "FileHasher"}
 
 def traverse_facts(ctx, cq):
     cls = ctx.prog.cls(cq)
-    fn = cls.methods.get("_traverse")
+    fn = cls.methods.get("_traverse") or ctx.prog.find_method(cls, "_traverse")
     if fn is None:
         raise AnalysisError("anchor vanished: %s._traverse" % cq)
     g = C.cfg_of(fn)
